@@ -267,7 +267,7 @@ fn dec_alphabet(p: u32, s: u32) -> Vec<i128> {
 }
 
 fn decimals(d: &mut Driver, tier: Tier, res: &mut Res) {
-    let ps: Vec<(u32, u32)> = if tier.is_thorough() { vec![(1, 0), (2, 1), (3, 2), (9, 2), (18, 0), (18, 3), (18, 18), (19, 0), (19, 4), (38, 0), (38, 10), (38, 38)] } else { vec![(2, 1), (9, 2), (18, 3), (19, 4), (38, 10)] };
+    let ps: Vec<(u32, u32)> = if tier.is_thorough() { vec![(1, 0), (2, 1), (3, 2), (9, 2), (18, 0), (18, 3), (18, 18), (19, 0), (19, 4), (38, 0), (38, 10), (38, 38)] } else { vec![(2, 1), (9, 2), (18, 0), (18, 3), (19, 4), (38, 0), (38, 10)] };
     for &(p1, s1) in &ps {
         for &(p2, s2) in &ps {
             for op in ['+', '-', '*'] {
